@@ -30,7 +30,10 @@ Record case_C20 := {
   c20_again_changed : bool;
   c20_jobs_before : list jobrec;          (* read from the raw files of the configured workspace *)
   c20_open_after : result (list jobrec);  (* get_project(root) after the migration, jobs by id  *)
-  c20_name_after : option json            (* project.document.get("signac_project_name") after *)
+  c20_name_after : option json;           (* project.document.get("signac_project_name") after *)
+  c20_orig : option (option str * option str)
+     (* legacy layout: the ORIGINAL project name and workspace_dir the legacy writer was given,
+        before ConfigObj quoted / un-quoted them (None for other layouts) *)
 }.
 
 Definition base_comps (base : str) : list str := filter nonempty (split_sl base).
@@ -272,7 +275,19 @@ Definition mig_ok (c : case_C20) : bool :=
     end
   end.
 
-Definition holds_C20 (c : case_C20) : bool := forallb (gate_ok c) (c20_gate c) && mig_ok c.
+(* the config-file lexer (ConfigObj: quoting on write, un-quoting / list splitting on read) is not
+   modelled; it is validated here on every generated value: what the configspec-free parse of the
+   legacy file yields (and the model is given) must be the ORIGINAL name / workspace_dir, so that
+   every clause of mig_ok about "the name" and "the workspace" is a clause about the originals. *)
+Definition orig_ok (c : case_C20) : bool :=
+  match c20_orig c, the_layout c with
+  | Some (n, w), LV1 c0 => optstr_eqb (cproj c0) n && optstr_eqb (cws c0) w
+  | Some (None, _), LNone => true            (* a signac.rc without project key is not loadable *)
+  | Some _, _ => false
+  | None, _ => true
+  end.
+
+Definition holds_C20 (c : case_C20) : bool := forallb (gate_ok c) (c20_gate c) && mig_ok c && orig_ok c.
 Definition violation_C20 (c : case_C20) : bool := negb (holds_C20 c).
 
 Definition mismatches_C20 (cs : list case_C20) : list N := indices_where mismatch_C20 cs.
